@@ -10,7 +10,7 @@ use crate::props::common::*;
 use serde_json::{json, Value};
 use std::collections::{BTreeMap, HashSet};
 
-pub const RULE: &str = "random + crafted histories of insert/delete(cuckoo)/union/clear per (filter kind, configuration, hasher, eviction RNG, kick budget); after every operation all keys with net inserts >= 1 are queried; unions of differently configured filters must panic (as documented) or keep every element of both operands. A history is non-trivial if it contained at least one of: eviction, quotient-filter shift, Full error, union; distinct = distinct (config, op-sequence) hashes";
+pub const RULE: &str = "random + crafted histories of insert/delete(cuckoo)/union/clear per (filter kind, configuration, hasher, eviction RNG, kick budget); after every operation all keys with net inserts >= 1 are queried; plus long histories on tables of 2^11..2^14 slots / 10^6 bits with sampled sweeps; unions of differently configured filters must panic (as documented) or keep every element of both operands. A history is non-trivial if it contained at least one of: eviction, quotient-filter shift, Full error, union; distinct = distinct (config, op-sequence) hashes";
 pub const ASSUMPTIONS: &[&str] = &[
     "harness hashers/RNGs behave as specified (unit-tested)",
     "cuckoo deletes are only issued for keys with net inserts >= 1, as the property demands",
@@ -294,6 +294,90 @@ fn mismatched_unions(ctx: &Ctx, i: usize, rep: &mut Report) {
     pair!("qf hasher mismatch".to_string(), QfCfg { q: 7, r: 8, bh }.make(), QfCfg { q: 7, r: 8, bh: CtlBuildHasher::mix(bh.seed ^ 1) }.make());
 }
 
+/// Large tables (thousands of slots): long insert/delete/union histories, the shadow multiset is
+/// swept on a sample of the live keys every few hundred operations and completely at the end.
+fn large_tables(ctx: &Ctx, i: usize, rep: &mut Report) {
+    use crate::infra::hashers::CtlBuildHasher;
+    let mut r = FastRng::new(ctx.sub_seed(&[0x1A26E, i as u64]));
+    let bh = CtlBuildHasher::new(if r.chance(0.5) { HMode::Mix } else { HMode::Sip }, r.next());
+    macro_rules! drive {
+        ($label:expr, $make:expr, $cap:expr, $has_delete:expr) => {{
+            let label: String = $label;
+            rep.config(&label);
+            let cap: usize = $cap;
+            let res = guarded(|| -> Option<(String, u64)> {
+                let mut f = $make;
+                let mut live: Vec<u64> = vec![];
+                let n_ops = cap + cap / 4 + 200;
+                for step in 0..n_ops {
+                    beat();
+                    let x = r.f64();
+                    if x < 0.02 && !live.is_empty() {
+                        // union with a filter holding 50 fresh keys
+                        let mut o = $make;
+                        let ks: Vec<u64> = (0..50).map(|_| r.next()).collect();
+                        let ok: Vec<u64> = ks.iter().copied().filter(|k| o.insert(*k).is_ok()).collect();
+                        if f.union(&o).is_ok() {
+                            live.extend(ok);
+                        }
+                    } else if x < 0.15 && $has_delete && !live.is_empty() {
+                        let j = r.below(live.len() as u64) as usize;
+                        let k = live.swap_remove(j);
+                        if Flt::delete(&mut f, k) != Some(true) {
+                            live.push(k); // not C01's business; keep it as expected-present
+                        }
+                    } else {
+                        let k = r.next();
+                        if f.insert(k).is_ok() {
+                            live.push(k);
+                        }
+                    }
+                    if step % 400 == 399 || step + 1 == n_ops {
+                        let full = step + 1 == n_ops;
+                        let m = if full { live.len() } else { live.len().min(300) };
+                        for t in 0..m {
+                            let k = if full { live[t] } else { live[r.below(live.len() as u64) as usize] };
+                            if !f.query(k) {
+                                return Some((format!("step {}", step), k));
+                            }
+                        }
+                    }
+                }
+                rep.evaluations += n_ops as u64;
+                None
+            });
+            match res {
+                Ok(None) => {
+                    rep.count("large_table_histories", 1);
+                    let mut h = CaseHash::new(&label);
+                    h.push(i as u64);
+                    rep.nontrivial(h.0);
+                }
+                Ok(Some((at, k))) => rep.violation(
+                    format!("C01/false-negative/{}/large-table", label.split('(').next().unwrap_or("?")),
+                    format!("{}: key {} has net inserts >= 1 but query() is false ({})", label, k, at),
+                    json!({"config": label, "missing_key": k, "at": at}),
+                ),
+                Err(msg) => rep.violation(format!("C01/panic/{}", panic_class(&msg)), format!("{}: {}", label, msg), json!({"config": label})),
+            }
+        }};
+    }
+    match i % 3 {
+        0 => {
+            let cfg = CuckooCfg { bucketsize: *r.pick(&[2usize, 4]), n_buckets: *r.pick(&[1024usize, 4096]), l: *r.pick(&[8usize, 12, 33]), bh, rng: pick_rng(&mut r) };
+            drive!(cfg.label(), cfg.make(), cfg.slots(), true);
+        }
+        1 => {
+            let cfg = QfCfg { q: *r.pick(&[11usize, 13, 14]), r: *r.pick(&[3usize, 9, 40]), bh };
+            drive!(cfg.label(), cfg.make(), cfg.slots(), false);
+        }
+        _ => {
+            let cfg = BloomCfg { m: *r.pick(&[65_536usize, 1_000_003]), k: *r.pick(&[1usize, 7, 13]), bh };
+            drive!(cfg.label(), cfg.make(), cfg.m / cfg.k / 2, false);
+        }
+    }
+}
+
 pub fn run(ctx: &Ctx) -> Report {
     let dbg = ctx.is_dbg();
     let n_items = match (ctx.tier, dbg) {
@@ -306,6 +390,9 @@ pub fn run(ctx: &Ctx) -> Report {
         let mut r = FastRng::new(ctx.sub_seed(&[i as u64, if dbg { 1 } else { 0 }]));
         if i % 97 == 0 {
             mismatched_unions(ctx, i, rep);
+        }
+        if i % 200 == 11 && !dbg {
+            large_tables(ctx, i, rep);
         }
         let kind = i % 8;
         let hists = 12;
